@@ -24,7 +24,7 @@ PROPS = {
                 not_under_contract=['regex engine (fancy_regex) - trusted', 'string order beyond the bounded unit', 'list/map equality beyond the bounded unit'],
                 explanation=''),
     'C01': dict(level='proof', vgroups=['eval', 'eval_blocks', 'eval_disp', 'index'],
-                kunits=['U-cnf', 'U-unary-special', 'U-cmp-int', 'U-cmp-float', 'U-cmp-char-null-bool', 'U-cmp-types', 'U-within'],
+                kunits=['U-cnf', 'U-unary-special', 'U-unary-wiring', 'U-cmp-int', 'U-cmp-float', 'U-cmp-char-null-bool', 'U-cmp-types', 'U-within'],
                 kunits_quick=['U-cnf', 'U-cmp-int', 'U-within'],
                 assumptions=EVAL_ASSUME + KANI_ASSUME,
                 level_text='whole-interpreter correctness is NOT claimed. Decided by contracts: clause = all/some aggregation of per-value results with the right polarity (U-gac), binary per-value layer (U-binop), named-rule / when / rule / file composition (Verus, unbounded); CNF combinator, unary truth tables, index retrieval, scalar comparison kernel, range membership, operator-level flip (Kani; complete over scalar domains, otherwise bounded as stated)',
@@ -47,7 +47,7 @@ PROPS = {
     'C02': dict(level='proof', level_text='Verus proves, for all inputs and all lengths, that every record closed by rule/when/file/named-clause/clause evaluation carries the status returned to the caller and that this status is the documented function of the children statuses (record-tree ghost model)', level_note='assumed: EvalContext trait contract, CNF combinator contract (bounded Kani unit), query engine; termination not proved', vgroups=['eval', 'eval_blocks', 'eval_disp', 'tracker'], kunits=['U-cnf'], assumptions=EVAL_ASSUME,
                 not_under_contract=['query_retrieval_with_converter (Filter records)', 'RootScope::rule_status', 'RecordTracker (bounded only)'],
                 explanation=''),
-    'C03': dict(level='proof', level_text='Verus proves that the polarity reaching the per-value layer is operator-not XOR prefix-not on both the unary and the binary path of the real eval_guard_access_clause, and the named-rule negation table', level_note='assumed: unary_operation/binary_operation depend on the polarity bit as contracted (bounded Kani units)', vgroups=['eval'], kunits=['U-unary-special'], assumptions=EVAL_ASSUME,
+    'C03': dict(level='proof', level_text='Verus proves that the polarity reaching the per-value layer is operator-not XOR prefix-not on both the unary and the binary path of the real eval_guard_access_clause, and the named-rule negation table', level_note='assumed: unary_operation/binary_operation depend on the polarity bit as contracted (bounded Kani units)', vgroups=['eval'], kunits=['U-unary-special', 'U-unary-wiring'], assumptions=EVAL_ASSUME,
                 not_under_contract=['operators.rs list-valued In/Eq flip'], explanation=''),
     'C04': dict(level='proof', vgroups=['status', 'eval'], kunits=['U-cnf'], assumptions=EVAL_ASSUME,
                 level_text='order/repetition invariance is proved as lemmas over the aggregation spec functions (permutation = equal multisets, repetition = insertion of a copy; unbounded), composed with the conformance of the real aggregators to those spec functions (Verus unbounded for rule list / rule / when; Kani bounded for the CNF combinator)',
